@@ -1,5 +1,6 @@
 import PandoraModel.Properties.C04
 import PandoraModel.Properties.C04C02
+import PandoraModel.Properties.C04Kernels
 open Pandora.C04
 -- the end-point tests of criteria.py equal the set statements
 #print axioms vmBit1_iff
@@ -49,3 +50,16 @@ open Pandora.C04
 #print axioms Pandora.C04C02.invalid_iff_all_costs_nan_of_wf
 #print axioms Pandora.C04C02.composed_spec
 #print axioms Pandora.C04C02.composed_spec_disp
+-- the decisions of criteria.py regenerated from the source (Generated/KernelsCriteria.lean) = the hand model
+#print axioms Pandora.C04Kernels.validityMaskCol_eq
+#print axioms Pandora.C04Kernels.validityMaskCol_bit1_iff
+#print axioms Pandora.C04Kernels.validityMaskCol_flag
+#print axioms Pandora.C04Kernels.leftMaskedPred_eq
+#print axioms Pandora.C04Kernels.rightMaskedPred_eq
+#print axioms Pandora.C04Kernels.allocLeftPx_eq
+#print axioms Pandora.C04Kernels.validIndex_eq
+#print axioms Pandora.C04Kernels.validIndex_iff
+#print axioms Pandora.C04Kernels.rangeLen_eq
+#print axioms Pandora.C04Kernels.rightIterPx_eq
+#print axioms Pandora.C04Kernels.maskInvalidPx_eq
+#print axioms Pandora.C04Kernels.maskBorderPx_eq
